@@ -23,9 +23,11 @@ ENTRIES = {
          'lookup:getRuleShortcuts', 'lookup:isAnyURLShortcut', 'lookup:getSubdomains', 'lookup:shortcutLength'],
  'C02': ['.:NewDNSEngine', '.:DNSEngine.Match', '.:DNSEngine.MatchRequest', '.:DNSEngine.matchLookupTable', '.:DNSEngine.addRule',
          '.:DNSEngine.getRequestFromPool', 'rules:NetworkRule.IsHostLevelNetworkRule', 'rules:GetDNSBasicRule', 'rules:HostRule.Match',
-         'rules:OptionHostLevelRulesOnly'],
+         'rules:OptionHostLevelRulesOnly', '.:NetworkEngine.MatchAll', '.:NetworkEngine.AddRule', 'lookup:ShortcutsTable.TryAdd',
+         'lookup:ShortcutsTable.MatchAll', 'lookup:SeqScanTable.TryAdd', 'lookup:SeqScanTable.MatchAll', 'lookup:DomainsTable.TryAdd',
+         'lookup:getRuleShortcuts', 'filterutil:FastHash', 'filterutil:FastHashBetween'],
  'C03': ['rules:patternToRegexp', 'rules:NetworkRule.preparePattern', 'rules:NetworkRule.matchPattern', 'rules:NetworkRule.shouldMatchHostname',
-         'rules:specialCharReplacer', 'rules:RegexSeparator', 'rules:RegexStartURL', 'rules:RegexAnyCharacter'],
+         'rules:specialCharReplacer', 'rules:RegexSeparator', 'rules:RegexStartURL', 'rules:RegexAnyCharacter', 'rules:NewNetworkRule'],
  'C04': ['rules:NetworkRule.Match', 'rules:NetworkRule.matchRequestDomain', 'rules:NetworkRule.matchSourceDomain', 'rules:NetworkRule.matchDNSType',
          'rules:NetworkRule.matchClientTags', 'rules:NetworkRule.matchClient', 'rules:NetworkRule.matchRequestType', 'rules:isDomainOrSubdomainOfAny',
          'rules:NewNetworkRule', 'rules:NetworkRule.loadOptions', 'rules:NetworkRule.loadOption', 'rules:parseRuleText', 'rules:loadDomains',
